@@ -208,9 +208,9 @@ def peer_variant_table(ctx: Ctx, rule: str) -> None:
                      [m_enum("L", ll), m_enum("R", lr), m_enum("P", lp)],
                      lambda v: (
                          ("type", "custom" if v["R"] == "custom" and v["L"] == "custom" else ("internetip" if v["R"] == "externalip" else "nic"),
-                          "nic", f"{lr}['nic']" if v["R"] == "custom" and v["L"] != "custom" else None),
-                         ("type", "externalip" if v["L"] == "internetip" else "custom", "nic", f"{ll}['nic']" if v["L"] == "nic" else None),
-                         ("type", "ip", "nic", f"{lp}['nic']"),
+                          "nic", f"nic-of:{lr}" if v["R"] == "custom" and v["L"] != "custom" else None),
+                         ("type", "externalip" if v["L"] == "internetip" else "custom", "nic", f"nic-of:{ll}" if v["L"] == "nic" else None),
+                         ("type", "ip", "nic", f"nic-of:{lp}"),
                      ))
 
     def outcome(view, val, free):
@@ -224,7 +224,14 @@ def peer_variant_table(ctx: Ctx, rule: str) -> None:
                 state[t.id] = {k.value: (v_.value if isinstance(v_, ast.Constant) else ast.unparse(v_)) for k, v_ in zip(s.value.keys, s.value.values)}
             elif isinstance(t, ast.Subscript) and isinstance(t.value, ast.Name) and isinstance(t.slice, ast.Constant) and t.value.id in state:
                 state[t.value.id][t.slice.value] = s.value.value if isinstance(s.value, ast.Constant) else ast.unparse(s.value)
-        return tuple(("type", state.get(n, {}).get("type"), "nic", state.get(n, {}).get("nic")) for n in names)
+        def nic_of(text):
+            # X['nic'] and X.get('nic', <default>) both mean "the nic of X" (the default is checked by rule 8n)
+            if text is None:
+                return None
+            mm = re.match(r"^(\w+)\['nic'\]$", text) or re.match(r"^(\w+)\.get\('nic', '\w+'\)$", text)
+            return f"nic-of:{mm.group(1)}" if mm else text
+
+        return tuple(("type", state.get(n, {}).get("type"), "nic", nic_of(state.get(n, {}).get("nic"))) for n in names)
 
     table_rule(ctx, rule, fref, views, spec, outcome,
                construct="right local/remote/peer from left: remote custom -> local nic (custom if left local custom), externalip -> internetip, else nic; "
@@ -239,7 +246,7 @@ def unsupported_raise(ctx: Ctx, rule: str) -> None:
         if isinstance(s, ast.If):
             t = ast.unparse(s.test)
             for name in (p[4], p[5], p[6], p[7]):
-                if t.startswith(f"{name}['type'] ==") or t == f"{name} is None":
+                if t.startswith(f"{name}['type'] ==") or t.startswith(f"{name} is None"):
                     cur = s
                     accepted = []
                     while isinstance(cur, ast.If):
@@ -250,17 +257,31 @@ def unsupported_raise(ctx: Ctx, rule: str) -> None:
                     ok = len(tail) == 1 and isinstance(tail[0], ast.Raise) and PathEnum._raised_name(tail[0]) == "ValueError"
                     if name not in chains or len(accepted) > len(chains[name][1]):
                         chains[name] = (ok, accepted)
-    want = {
-        p[4]: [f"{p[4]}['type'] == 'nic'", f"{p[4]}['type'] == 'internetip'", f"{p[4]}['type'] == 'custom'"],
-        p[5]: [f"{p[5]}['type'] == 'custom'", f"{p[5]}['type'] == 'externalip'", f"{p[5]}['type'] == 'modeconfig'"],
-        p[6]: [f"{p[6]}['type'] == 'ip'", f"{p[6]}['type'] == 'dynip'"],
-        p[7]: [f"{p[7]} is None", f"{p[7]}['type'] == 'pubkey'", f"{p[7]}['type'] == 'psk'"],
-    }
-    for name, accepted in want.items():
+    import re as _re
+
+    want = {p[4]: {"nic", "internetip", "custom"}, p[5]: {"custom", "externalip", "modeconfig"}, p[6]: {"ip", "dynip"}, p[7]: {"pubkey", "psk", "none"}}
+    for name, names in want.items():
         got = chains.get(name)
-        ok = got is not None and got[0] and got[1] == accepted
-        ctx.record(rule, "TABLE", INIT, f"{name}: accepted {[a.split('== ')[-1] for a in accepted]}, anything else -> ValueError", ok,
-                   {"found": got[1] if got else None}, "" if ok else f"an unsupported {name} type is no longer rejected (or the accepted set changed): {got}")
+        accepted, documented, none_ok = set(), set(), False
+        if got is not None:
+            for t in got[1]:
+                tn = ast.parse(t, mode="eval").body
+                for c in ast.walk(tn):
+                    if isinstance(c, ast.Compare) and len(c.ops) == 1 and isinstance(c.ops[0], ast.Eq) and ast.unparse(c.left) == f"{name}['type']" and isinstance(c.comparators[0], ast.Constant):
+                        accepted.add(c.comparators[0].value)
+                    if isinstance(c, ast.Compare) and isinstance(c.ops[0], ast.Is) and ast.unparse(c.left) == name:
+                        none_ok = True
+            # the types the error message of the rejecting raise promises
+            cur = next((s_ for s_ in fn.node.body if isinstance(s_, ast.If) and ast.unparse(s_.test) == got[1][0]), None)
+            while cur is not None and len(cur.orelse) == 1 and isinstance(cur.orelse[0], ast.If):
+                cur = cur.orelse[0]
+            if cur is not None and cur.orelse and isinstance(cur.orelse[0], ast.Raise):
+                msg = "".join(c.value for c in ast.walk(cur.orelse[0]) if isinstance(c, ast.Constant) and isinstance(c.value, str))
+                documented = set(_re.findall(r"'(\w+)'", msg.split("one of")[-1])) if "one of" in msg else set()
+        ok = got is not None and got[0] and accepted == names and (not documented or documented == accepted) and (none_ok == (name == p[7]))
+        ctx.record(rule, "TABLE", INIT, f"{name}: accepted {sorted(names)}" + (" or no auth at all" if name == p[7] else "") + ", anything else -> ValueError; the error message names exactly the accepted types", ok,
+                   {"accepted": sorted(accepted), "documented_in_message": sorted(documented)},
+                   "" if ok else f"the accepted {name} types {sorted(accepted)} differ from the supported/documented ones {sorted(documented or names)} (an unsupported type is no longer rejected, or a documented one is refused)")
 
 
 def symmetry(ctx: Ctx, rule: str) -> None:
@@ -343,7 +364,56 @@ def endpoint_tuple(ctx: Ctx, rule: str) -> None:
                "" if ok else "configure_on_endpoint no longer mirrors the end point tuple consistently")
 
 
+def key_agreement(ctx: Ctx, rule: str) -> None:
+    """The tunnel parameters read back elsewhere in the package are parameters the tunnel constructor writes."""
+    import re as _re
+
+    def stem(text: str) -> str:
+        return _re.sub(r"(_%s)+$", "", text)
+
+    written = set()
+    for f in ctx.repo.all_functions(("vmnet/tunnel.py",)):
+        for st in ast.walk(f.node):
+            if isinstance(st, ast.Subscript) and isinstance(st.ctx, ast.Store):
+                for c in ast.walk(st.slice):
+                    if isinstance(c, ast.Constant) and isinstance(c.value, str) and c.value.startswith("vpnconn_"):
+                        written.add(stem(c.value))
+    reads = []
+    # readers outside the tunnel module consume what the constructor produced (inside it, user-provided optional keys are read too)
+    for f in ctx.repo.all_functions(("vmnet/network.py",)):
+        for c in ast.walk(f.node):
+            key = None
+            if isinstance(c, ast.Call) and call_name(c) == "get" and c.args and isinstance(c.args[0], ast.Constant) and isinstance(c.args[0].value, str):
+                key = c.args[0].value
+            elif isinstance(c, ast.Subscript) and isinstance(c.ctx, ast.Load):
+                ks = [k.value for k in ast.walk(c.slice) if isinstance(k, ast.Constant) and isinstance(k.value, str)]
+                key = ks[0] if ks else None
+            if key and key.startswith("vpnconn_"):
+                reads.append((f.ref, c.lineno, stem(key)))
+    unknown = [(ref, k) for ref, _l, k in reads if k not in written]
+    if len(written) < 15 or len(reads) < 8:
+        raise AnalysisError(f"tunnel parameter tables too small (written {len(written)}, reads {len(reads)})")
+    ctx.record(rule, "TABLE", "vmnet/network.py / vmnet/tunnel.py", f"every vpnconn_* parameter read by the network module ({len(reads)} reads) is one the tunnel constructor writes ({len(written)} keys)", not unknown,
+               {"unknown_reads": sorted(set(unknown))}, "" if not unknown else f"a tunnel parameter is read under a name nobody writes: {sorted(set(unknown))[0]} — the value is always missing (None)")
+    # optional 'nic' of an end point description: read with the same default wherever it is read
+    direct = []
+    defaults: dict[str, set] = {}
+    for fname in ("__init__", "_get_peer_variant"):
+        f = ctx.repo.func(f"vmnet/tunnel.py:VMTunnel.{fname}")
+        for c in ast.walk(f.node):
+            if isinstance(c, ast.Subscript) and isinstance(c.ctx, ast.Load) and isinstance(c.slice, ast.Constant) and c.slice.value == "nic" and isinstance(c.value, ast.Name):
+                direct.append(f"{fname}: {ast.unparse(c)}")
+            if isinstance(c, ast.Call) and call_name(c) == "get" and len(c.args) == 2 and isinstance(c.args[0], ast.Constant) and c.args[0].value == "nic" and isinstance(c.func.value, ast.Name):
+                role = "peer" if "peer" in c.func.value.id else "net"
+                defaults.setdefault(role, set()).add(ast.unparse(c.args[1]))
+    ok = not direct and defaults == {"peer": {"'internet_nic'"}, "net": {"'lan_nic'"}}
+    ctx.record(rule + "n", "SIBLING", "vmnet/tunnel.py:VMTunnel.__init__ / _get_peer_variant", "the optional 'nic' of an end point description is read with its default everywhere (lan_nic for local/remote, internet_nic for peers)", ok,
+               {"unguarded": direct, "defaults": {k: sorted(v) for k, v in defaults.items()}},
+               "" if ok else f"an end point description without 'nic' (documented as optional) works in the constructor's own reads but fails with KeyError in {direct[:2]}")
+
+
 def run(ctx: Ctx) -> None:
+    ctx.call(key_agreement, "8")
     ctx.call(constructor_mirror, "1", "2", "3", "4")
     ctx.call(peer_variant_table, "4t")
     ctx.call(unsupported_raise, "5")
@@ -352,6 +422,9 @@ def run(ctx: Ctx) -> None:
 
 
 MUTANTS = [
+    ("route-mask-unwritten-key", "vmnet/network.py", "                    .get(\"vpnconn_remote_netmask\")\n                )\n            logging.debug(\n                \"Retrieved previous network", "                    .get(\"vpnconn_remote_mask\")\n                )\n            logging.debug(\n                \"Retrieved previous network", "8"),
+    ("auth-none-refused", "vmnet/tunnel.py", "        if auth is None or auth[\"type\"] == \"none\":", "        if auth is None:", "5"),
+    ("peer-variant-nic-unguarded", "vmnet/tunnel.py", "right_remote[\"nic\"] = left_local.get(\"nic\", \"lan_nic\")", "right_remote[\"nic\"] = left_local[\"nic\"]", "8n"),
     ("custom-not-mirrored", TUN, "            params[\"vpnconn_remote_net_%s_%s\" % (name, node2.name)] = local1[\"lnet\"]\n            params[\"vpnconn_remote_netmask_%s_%s\" % (name, node2.name)] = local1[\n                \"lmask\"\n            ]\n", "", "1"),
     ("remote-net-from-own-lan", TUN, "            params[\"vpnconn_remote_net_%s_%s\" % (name, node1.name)] = netconfig2.net_ip", "            params[\"vpnconn_remote_net_%s_%s\" % (name, node1.name)] = netconfig1.net_ip", "1"),
     ("peer-ip-own-interface", TUN, "        interface1 = node1.interfaces[node1.params[peer2.get(\"nic\", \"internet_nic\")]]", "        interface1 = node2.interfaces[node2.params[peer2.get(\"nic\", \"internet_nic\")]]", "2"),
